@@ -1095,6 +1095,46 @@ def required_order_forms(rng):
     return out
 
 
+def meta_field_forms(rng):
+    """(name, valid, [definitions]) -- the introspection meta fields at the query root (valid) and
+    below it (`__schema` / `__type` are fields of the query root only: FieldsOnCorrectType must
+    report them anywhere else; `__typename` is valid on every composite type): directly, aliased,
+    through named and inline fragments, nested two levels, next to ordinary fields"""
+    out = []
+    leaf = lambda al, nm, args=None: {"k": "field", "alias": al, "name": nm, "args": args or [], "dirs": [], "sels": None}
+    fld = lambda al, nm, sels, args=None: {"k": "field", "alias": al, "name": nm, "args": args or [], "dirs": [], "sels": sels}
+    metas = {
+        "schema": lambda al: fld(al, "__schema", [fld(None, "queryType", [leaf(None, "name")])]),
+        "type": lambda al: fld(al, "__type", [leaf(None, "name"), leaf(None, "kind")], [["name", ["str", "AnchorObj"]]]),
+        "typename": lambda al: leaf(al, "__typename"),
+    }
+
+    def anc(sels):
+        a = _anchor_field(rng, None)
+        a["alias"] = "zm"
+        a["sels"] = sels
+        return a
+
+    def q(sels, extra=None):
+        return [{"kind": "op", "op": "query", "name": "ZM", "vars": [], "dirs": [], "sels": sels}] + (extra or [])
+
+    for m, mk in metas.items():
+        out.append(("root-%s" % m, True, q([mk(None)])))
+        out.append(("root-aliased-%s" % m, True, q([mk("zs"), anc([leaf(None, "id")])])))
+        out.append(("root-fragment-%s" % m, True, q([{"k": "spread", "name": "ZMq", "dirs": []}],
+                    [{"kind": "frag", "name": "ZMq", "on": "Query", "dirs": [], "sels": [mk(None)]}])))
+        ok = m == "typename"
+        out.append(("below-%s" % m, ok, q([anc([leaf(None, "id"), mk(None)])])))
+        out.append(("below-aliased-%s" % m, ok, q([anc([mk("zs")])])))
+        out.append(("below-nested-%s" % m, ok, q([anc([fld(None, "self", [fld(None, "self", [mk(None), leaf(None, "name")])])])])))
+        out.append(("below-inline-%s" % m, ok, q([anc([{"k": "inline", "on": "AnchorObj", "dirs": [], "sels": [mk(None)]}])])))
+        out.append(("below-inline-untyped-%s" % m, ok, q([anc([{"k": "inline", "on": None, "dirs": [], "sels": [mk("zs")]}])])))
+        out.append(("below-fragment-%s" % m, ok, q([anc([{"k": "spread", "name": "ZMf", "dirs": []}])],
+                    [{"kind": "frag", "name": "ZMf", "on": "AnchorObj", "dirs": [], "sels": [mk(None)]}])))
+        out.append(("below-list-%s" % m, ok, q([anc([fld(None, "others", [mk(None)], [["first", ["int", "1"]]])])])))
+    return out
+
+
 def violate(rng, schema, doc, label):
     """returns a copy of doc breaking rule `label` (1-based index into RULES)
     at one place, or None when not applicable"""
@@ -1180,6 +1220,21 @@ def violate(rng, schema, doc, label):
         else:
             return None
     elif label == 9:
+        below = [x["sels"] for x in all_nodes(d, "field") if x["sels"] is not None]
+        if below and rng.random() < 0.4:
+            # `__schema` / `__type` are fields of the query root only: below it (object, interface,
+            # union, mutation payload, list item) they are unknown fields
+            sels = rng.choice(below)
+            al = rng.choice([None, "zmeta"])
+            if rng.random() < 0.5:
+                m = {"k": "field", "alias": al, "name": "__schema", "args": [], "dirs": [],
+                     "sels": [{"k": "field", "alias": None, "name": "queryType", "args": [], "dirs": [],
+                               "sels": [{"k": "field", "alias": None, "name": "name", "args": [], "dirs": [], "sels": None}]}]}
+            else:
+                m = {"k": "field", "alias": al, "name": "__type", "args": [["name", ["str", "Query"]]], "dirs": [],
+                     "sels": [{"k": "field", "alias": None, "name": "name", "args": [], "dirs": [], "sels": None}]}
+            sels.insert(rng.randint(0, len(sels)), m)
+            return d
         sels, _ = rng.choice(all_selsets(d))
         sels.insert(rng.randint(0, len(sels)),
                     {"k": "field", "alias": None, "name": "zz9field", "args": [], "dirs": [], "sels": None})
@@ -1676,6 +1731,24 @@ def permute_input_fields(rng, doc):
     for ob in objs:
         ob[1].sort(key=lambda f: rank[f[0]])
     return d
+
+
+def respell_lines(rng, text):
+    """the same token sequence with every line terminator independently spelled \\n, \\r\\n or \\r,
+    comments added at line ends (also after an existing comment) and existing comments stripped"""
+    lines = text.split("\n")
+    out = []
+    for l in lines:
+        c = rng.random()
+        if " # " in l and c < 0.3:
+            l = l[:l.index(" # ")]
+        elif c < 0.65 and l.strip():
+            l += rng.choice([" # note", " #", " # its name, really", "# tight {", " # } ) \"", " # \t tab"])
+        out.append(l)
+    s = out[0]
+    for l in out[1:]:
+        s += rng.choice(["\n", "\r\n", "\r", "\r"]) + l
+    return s
 
 
 def _map_vals(v, f):
